@@ -3,6 +3,7 @@
 # applies each patch to /tmp/wt_lead (branch lead-fixes), runs the baseline, commits with the .txt subject,
 # then fast-forwards /repo main.  Stops at the first failure.
 set -u
+[ -d /tmp/wt_lead ] || git -C /repo worktree add -q -B lead-fixes /tmp/wt_lead main   # scratch worktree for fixes (removed at the end of a session)
 cd /tmp/wt_lead || exit 2
 git merge -q --ff-only main 2>/dev/null
 for n in "$@"; do
